@@ -21,6 +21,7 @@ type PropSpec struct {
 	Sweep          []string `json:"sweep"`           // safety-only (no-panic) verification, default contract `requires true`
 	Lemmas         []string `json:"lemmas"`          // lemma names
 	AssumeChecks   map[string]string `json:"assume_checks"` // run-time checks accepted as ENVIRONMENT assumptions (obligation name -> why): not remote input, invariant of a decoder/constructor that is not under contract; listed, never counted as discharged
+	IgnoreKinds    []string `json:"ignore_kinds"`    // obligation kinds that are not part of THIS property (e.g. run-time checks, which belong to C01); dropped, counted separately
 	Exclude        []string `json:"exclude"`         // function literals of listed functions that are NOT verified (named in not_decided)
 	MinObligations int      `json:"min_obligations"` // vacuity guard: the run must generate at least this many
 	NotDecided     []string `json:"not_decided"`
@@ -140,6 +141,10 @@ func cmdCheck(args []string) {
 		addAnon(f, sweepSet[funcKey(f)])
 	}
 	V.SweepSet = sweepSet
+	V.IgnoreKinds = map[string]bool{}
+	for _, k := range spec.IgnoreKinds {
+		V.IgnoreKinds[k] = true
+	}
 	var lemmas []*Lemma
 	for _, ln := range spec.Lemmas {
 		var found *Lemma
@@ -290,6 +295,7 @@ func cmdCheck(args []string) {
 			"obligations_generated":      len(res.Obls),
 			"discharged":                 discharged,
 			"known_findings":             knownHit,
+			"obligations_of_other_properties_dropped": res.Ignored,
 			"known_findings_note":        "obligations that fail because of a defect listed in /verif/known_findings.json are neither claimed nor counted as discharged; obligations = generated - known_findings",
 			"checker_cmd":                fmt.Sprintf("/verif/check %s %s  (gocv: VC generation over go/ssa of /repo's working tree; solvers z3-new 5.1.0, z3 4.8.12, cvc5 1.0.3; per-configuration timeout %v)", id, tier, tmo),
 			"trusted_base":               trusted,
